@@ -267,6 +267,11 @@ const SPECIAL_WORDS: &[&str] = &[
     "AT&T", "R&D", "the", "a", "an", "then", "than", "how", "why", "of", "to", "I", "i",
     "better", "could", "should", "would", "must", "their", "there", "your", "you're", "its",
     "let's", "lets", "who's", "whose",
+    // identifiers the G-PROGRAM code templates declare (collapsed by the server's wrapper when
+    // a comment mentions them)
+    "0xDEAD_BEEF", "0xFFFF_FFFF_0000_0000", "0x1_0", "0xFF_", "0x_FF", "1_000", "1_000th", "0b1010", "0o17", "1e1_0",
+    "1ßt", "1ſt", "21ﬆ", "21ﬆt", "5ẗh", "6tẖ", "2ŉd", "3ʀd", "1ST", "1ſT", "22ND",
+    "bar_baz", "my_var2", "getUserName", "HTTPServer", "bar_baz's", "bar_baz_", "_bar_baz", "bar-baz", "x1",
 ];
 
 const UNICODE_PIECES: &[&str] = &[
@@ -347,7 +352,7 @@ pub fn near_word() -> BoxedStrategy<String> {
 pub fn number_word() -> BoxedStrategy<String> {
     (
         prop_oneof![0u64..30, 0u64..2000, any::<u32>().prop_map(|x| x as u64)],
-        sel_str(&["", "", "st", "nd", "rd", "th", "ST", "Th", "s", "'s", "%", "x", "kg", "street"]),
+        sel_str(&["", "", "st", "nd", "rd", "th", "ST", "Th", "s", "'s", "%", "x", "kg", "street", "ßt", "ſt", "ﬆ", "ẗh", "tẖ", "_0", "_000", "sT", "nD"]),
     )
         .prop_map(|(n, s)| format!("{n}{s}"))
         .boxed()
